@@ -196,6 +196,8 @@ impl ShardFileManager {
     }
 
     pub async fn register_shards(&self, new_shards: &[Arc<MDBShardFile>]) -> Result<()> {
+        #[cfg(feature = "verif")]
+        verif_hooks::point("shardmgr.lock");
         let mut sbkp_lg = self.shard_bookkeeper.write().await;
 
         // Go through and register the shards in order of newest to oldest
@@ -328,6 +330,8 @@ impl FileReconstructor<MDBShardError> for ShardFileManager {
 
         // First attempt the in-memory version of this.
         {
+            #[cfg(feature = "verif")]
+            verif_hooks::point("shardmgr.lock");
             let lg = self.current_state.read().await;
             let file_info = lg.get_file_reconstruction_info(file_hash);
             if let Some(fi) = file_info {
@@ -335,6 +339,8 @@ impl FileReconstructor<MDBShardError> for ShardFileManager {
             }
         }
 
+        #[cfg(feature = "verif")]
+        verif_hooks::point("shardmgr.lock");
         let current_shards = self.shard_bookkeeper.read().await;
 
         for sc in current_shards.shard_collections.iter() {
@@ -361,6 +367,8 @@ impl ShardFileManager {
     ) -> Result<Option<(usize, FileDataSequenceEntry)>> {
         // First attempt the in-memory version of this.
         {
+            #[cfg(feature = "verif")]
+            verif_hooks::point("shardmgr.lock");
             let lg = self.current_state.read().await;
             let ret = lg.chunk_hash_dedup_query(query_hashes);
             if ret.is_some() {
@@ -368,6 +376,8 @@ impl ShardFileManager {
             }
         }
 
+        #[cfg(feature = "verif")]
+        verif_hooks::point("shardmgr.lock");
         let shard_lg = self.shard_bookkeeper.read().await;
 
         for shard_col in shard_lg.shard_collections.iter() {
@@ -395,6 +405,8 @@ impl ShardFileManager {
 
     /// Add CAS info to the in-memory state.
     pub async fn add_cas_block(&self, cas_block_contents: MDBCASInfo) -> Result<()> {
+        #[cfg(feature = "verif")]
+        verif_hooks::point("shardmgr.lock");
         let mut lg = self.current_state.write().await;
 
         lg.add_cas_block(cas_block_contents)?;
@@ -403,6 +415,8 @@ impl ShardFileManager {
         if lg.shard_file_size() >= self.target_shard_min_size {
             // Drop the lock guard before doing the flush.
             drop(lg);
+            #[cfg(feature = "verif")]
+            verif_hooks::point("shardmgr.after.add");
             self.flush().await?;
         }
 
@@ -411,6 +425,8 @@ impl ShardFileManager {
 
     /// Add file reconstruction info to the in-memory state.
     pub async fn add_file_reconstruction_info(&self, file_info: MDBFileInfo) -> Result<()> {
+        #[cfg(feature = "verif")]
+        verif_hooks::point("shardmgr.lock");
         let mut lg = self.current_state.write().await;
 
         lg.add_file_reconstruction_info(file_info)?;
@@ -419,6 +435,8 @@ impl ShardFileManager {
         if lg.shard_file_size() >= self.target_shard_min_size {
             // Drop the lock guard before doing the flush.
             drop(lg);
+            #[cfg(feature = "verif")]
+            verif_hooks::point("shardmgr.after.add");
             self.flush().await?;
         }
 
@@ -432,6 +450,8 @@ impl ShardFileManager {
 
         // The locked section here.
         {
+            #[cfg(feature = "verif")]
+            verif_hooks::point("shardmgr.lock");
             let mut lg = self.current_state.write().await;
 
             if lg.is_empty() {
@@ -444,6 +464,8 @@ impl ShardFileManager {
             info!("Shard manager flushed new shard to {new_shard_path:?}.");
         }
 
+        #[cfg(feature = "verif")]
+        verif_hooks::point("shardmgr.after.flush.section");
         // Load this one into our local shard catalog
         self.register_shards(&[MDBShardFile::load_from_file(&new_shard_path)?]).await?;
 
